@@ -195,9 +195,21 @@ def inventory(ctx) -> List[Site]:
                         if isinstance(q, ast.BinOp) and q.left is u:
                             v2 = q
                             q = parent(q)
+                        off = _affine(v2, u) or "?"
+                        # the (shifted) id may pass through one more local before it is formatted: `id_v = base - 1; ...format(id=id_v)`
+                        hops = 0
+                        while isinstance(q, ast.Assign) and len(q.targets) == 1 and isinstance(q.targets[0], ast.Name) and q.value is v2 and hops < 3:
+                            var2 = q.targets[0].id
+                            uses2 = [x for x in walk_no_nested(fn) if isinstance(x, ast.Name) and x.id == var2 and isinstance(x.ctx, ast.Load)]
+                            if len(uses2) != 1 or len(local_assignments(fn).get(var2, [])) != 1:
+                                break
+                            v2 = uses2[0]
+                            u = uses2[0]
+                            q = parent(v2)
+                            hops += 1
                         if isinstance(q, ast.keyword):
                             fmt_call, key = parent(q), q.arg
-                            s.offset = _affine(v2, u) or "?"
+                            s.offset = off
                         # the use must not be more guarded than the allocation
                         g_use = guards_of(u, fn, include_exits=True)
                         g_alloc = guards_of(call, fn, include_exits=True)
@@ -315,7 +327,7 @@ def _gateway_position(t: Tpl, slot: Slot) -> Tuple[bool, str]:
     if head.endswith("_wrapper"):
         return True, "literal *_wrapper("
     if head == "" and i >= 2 and isinstance(parts[i - 2], Slot) and parts[i - 2].key in ("wrapper", "wrapper_name"):
-        e = parts[i - 2].expr
+        e = parts[i - 2].val
         if e is not None and unparse(e) == "self._wrapper_name()":
             return True, "self._wrapper_name()("
         return False, f"callee slot bound to {unparse(e) if e is not None else None}"
